@@ -27,8 +27,30 @@ def feed(cfg, chunks):
     r = new_reader(cfg)
     out = []
     for c in chunks:
-        out += r.read(c)
+        out += take(r.read(c))
     return out, r
+
+
+class _Marker:
+    """Left behind in every list a reader returned (the list belongs to the caller): if a later call hands the same list
+    object back, the marker comes with it."""
+
+    def __repr__(self):
+        return "<object the caller put into an earlier result list>"
+
+
+MARK = _Marker()
+
+
+def take(result):
+    """Copy a read() result and then scribble on the returned list."""
+    if not isinstance(result, list):
+        raise TypeError(f"read() returned {type(result).__name__}, not a list")
+    if any(x is MARK for x in result):
+        raise AssertionError("read() returned a list object it had returned before (the caller's earlier additions are still in it)")
+    got = list(result)
+    result.append(MARK)
+    return got
 
 
 def obs(frames):
@@ -237,7 +259,7 @@ def escape_aligned_cuts(S: bytes, limit: int = 12):
                     yield (i, j)
 
 
-def feed_variants(make, chunks, observe_one):
+def feed_variants(make, chunks, observe_one, twin_stream: bytes = b""):
     """The same chunk list fed in ways that must not matter: plain bytes; bytearray objects that the caller wipes right
     after each call (a reader must not keep a reference to the caller's buffer); with empty chunks in between; and with a
     twin instance fed a different stream in alternation (no state may be shared between instances).  Observations are
@@ -246,6 +268,7 @@ def feed_variants(make, chunks, observe_one):
     def run(feeder_name):
         r = make()
         twin = make() if feeder_name == "interleaved-twin" else None
+        tpos = [0]
         msgs, early = [], []
         for i, c in enumerate(chunks):
             if feeder_name == "bytearray-wiped":
@@ -258,10 +281,19 @@ def feed_variants(make, chunks, observe_one):
             if feeder_name == "empty-chunks" and i % 2 == 0:
                 got = got + r.read(b"")
             if twin is not None:
-                twin.read(bytes(reversed(c)) + b"\x7e\x7d/\n!")
+                if twin_stream:  # the twin receives well-formed traffic of its own, a slice per step
+                    k = (tpos[0] % len(twin_stream))
+                    twin.read((twin_stream + twin_stream)[k:k + len(c) + 1])
+                    tpos[0] += len(c) + 1
+                else:
+                    twin.read(bytes(reversed(c)) + b"\x7e\x7d/\n!")
+            if feeder_name == "stalled-link":
+                from mc import vclock
+
+                vclock.advance(7.0 if i % 3 else 3700.0)  # seconds / an hour pass between two read() calls
             early += [observe_one(m) for m in got]
             msgs += got
         return tuple(early), tuple(observe_one(m) for m in msgs)
-    for name in ("plain", "bytearray-wiped", "empty-chunks", "interleaved-twin"):
+    for name in ("plain", "bytearray-wiped", "empty-chunks", "interleaved-twin", "stalled-link"):
         e, f = run(name)
         yield name, e, f
